@@ -15,6 +15,7 @@ pub struct XRule
     pub pk : bool,             // ... that line is killed by a signal instead (no exit code); only with pf
     pub layout : u8,           // 0: command on one line, 1: one word per line
     pub rev : bool,            // target / source lines written in reverse order in the rules file
+    pub flat : bool,           // paths in directories written as flat lines (a/b) instead of bundles: same rule, other parser order
 }
 
 impl XRule
@@ -23,7 +24,7 @@ impl XRule
     {
         let mut t : Vec<String> = tg.iter().map(|s| s.to_string()).collect(); t.sort();
         let mut s : Vec<String> = src.iter().map(|s| s.to_string()).collect(); s.sort();
-        XRule{tg : t, src : s, kind : kind.to_string(), id : id.to_string(), omit : 0, mask : vec![], x : false, pf : false, pk : false, layout : 0, rev : false}
+        XRule{tg : t, src : s, kind : kind.to_string(), id : id.to_string(), omit : 0, mask : vec![], x : false, pf : false, pk : false, layout : 0, rev : false, flat : false}
     }
 
     fn flags(&self) -> String
@@ -67,7 +68,7 @@ impl XRule
             omit : v["omit"].as_u64().unwrap_or(0) as usize,
             mask : v["mask"].as_array().map(|a| a.iter().map(|x| x.as_u64().unwrap_or(0) as usize).collect()).unwrap_or_default(),
             x : v["x"].as_bool().unwrap_or(false), pf : v["pf"].as_bool().unwrap_or(false), pk : cl.iter().any(|l| l == "vcmd killed"),
-            layout : if cl.iter().any(|l| l == "vcmd") { 1 } else { 0 }, rev : false,
+            layout : if cl.iter().any(|l| l == "vcmd") { 1 } else { 0 }, rev : false, flat : false,
         }
     }
 }
@@ -78,7 +79,12 @@ pub fn sort_rules(rules : &mut Vec<XRule>)
 {
     /* the parser delivers a rule's paths in bundle order (siblings by name, directory by directory), and Vec<Rule>::sort()
        compares those vectors; targets are unique, so the target vector decides */
-    rules.sort_by(|a, b| bundle_order(&a.tg).cmp(&bundle_order(&b.tg)));
+    rules.sort_by(|a, b| spelled_order(a).cmp(&spelled_order(b)));
+}
+
+pub fn spelled_order(r : &XRule) -> Vec<String>
+{
+    if r.flat { let mut v = r.tg.clone(); v.sort(); v } else { bundle_order(&r.tg) }
 }
 
 pub fn bundle_order(paths : &Vec<String>) -> Vec<String>
@@ -116,8 +122,8 @@ pub fn render(rules : &Vec<XRule>) -> String
     for r in rules
     {
         let mut tg = vec![]; let mut src = vec![];
-        bundle_lines(&r.tg, 0, r.rev, &mut tg);
-        bundle_lines(&r.src, 0, r.rev, &mut src);
+        if r.flat { tg = r.tg.clone(); src = r.src.clone(); if r.rev { tg.reverse(); src.reverse(); } }
+        else { bundle_lines(&r.tg, 0, r.rev, &mut tg); bundle_lines(&r.src, 0, r.rev, &mut src); }
         for t in &tg { out.push_str(t); out.push('\n'); }
         out.push_str(":\n");
         for s in &src { out.push_str(s); out.push('\n'); }
